@@ -468,4 +468,11 @@ theorem fold_sum_denote (t : RTree) (tm0 : Term) :
     rw [singleTerm, this]
     rfl
 
+/-! ### Example data used by the non-vacuity examples of `Props.lean` (C01 and C12) -/
+
+/-- A branched tree with a dimension-1 node; node 0 has children 2, 1 in this (reference) order. -/
+def exTree : RTree := .node 0 2 [.node 2 3 [], .node 1 2 [.node 3 1 []]]
+def exT1 : Term := ⟨2 / 3, "g", [(0, "A"), (3, "B")]⟩
+def exT2 : Term := ⟨-5, "1", [(2, "C")]⟩
+
 end Ptn.C01
